@@ -1,4 +1,5 @@
 import AndaVerif.Model.KipLex
+import AndaVerif.Model.KipJson
 import AndaVerif.Drv.Util
 /-
 Driver of the C15 model (budget pre-scan and head-keyword classification). One request per line:
@@ -14,13 +15,20 @@ Driver of the C15 model (budget pre-scan and head-keyword classification). One r
   w <hex1> <hex2> <hex> <alnum>
                       -> `yes` / `no`: does `words(&[w1, w2])` match at the start of the input
                          (w1, w2, input in hex)
+  j <hex>             -> the model of `parse_json` on the input: `ok <canonical value>` | `too_long` |
+                         `too_deep` | `err` | `oof` (model fuel exhausted: never expected).
+                         canonical value: n | t | f | i<decimal> | F | s<hex utf-8> | [v,…] | {s<hex>:v,…}
+                         with object members sorted by key (code point order)
+  cov                 -> `name=count;…`: which branches of the model this driver process has executed so
+                         far (branches of `step` per character, budget verdicts, families, JSON outcomes
+                         and value kinds, `words` answers)
   limits              -> `<MAX_KIP_INPUT_LEN> <MAX_KIP_NESTING_DEPTH>` as generated from the source
   wsset               -> every code point the model's `isWhitespace` accepts (all of Unicode scanned)
   alnumset            -> every ASCII code point the model's `isAsciiAlnum` accepts
 
 Malformed requests answer `err:bad-request` (never compared with the implementation).
 -/
-open AndaVerif.Model.KipLex AndaVerif.Drv
+open AndaVerif.Model.KipLex AndaVerif.Model.KipJson AndaVerif.Drv
 
 namespace AndaVerif.DrvC15
 
@@ -64,35 +72,121 @@ def showCls : Cls → Char
   | .str => 's'
   | .comment => 'm'
 
-def handle (line : String) : String :=
+def hexOfString (str : String) : String :=
+  let digits := "0123456789abcdef".toList.toArray
+  let bytes := str.toUTF8
+  String.ofList (bytes.toList.flatMap (fun b => [digits[(b.toNat / 16)]!, digits[(b.toNat % 16)]!]))
+
+def ltKey : List Char → List Char → Bool
+  | [], [] => false
+  | [], _ :: _ => true
+  | _ :: _, [] => false
+  | a :: as, b :: bs => if a.toNat < b.toNat then true else if b.toNat < a.toNat then false else ltKey as bs
+
+def insertSorted (x : List Char × String) : List (List Char × String) → List (List Char × String)
+  | [] => [x]
+  | y :: ys => if ltKey x.1 y.1 then x :: y :: ys else y :: insertSorted x ys
+
+partial def showJson : Json → String
+  | .null => "n"
+  | .bool true => "t"
+  | .bool false => "f"
+  | .int v => "i" ++ toString v
+  | .float => "F"
+  | .str cs => "s" ++ hexOfString (String.ofList cs)
+  | .arr items => "[" ++ ",".intercalate (items.map showJson) ++ "]"
+  | .obj fields =>
+    let rendered := fields.map (fun (k, v) => (k, "s" ++ hexOfString (String.ofList k) ++ ":" ++ showJson v))
+    let sorted := rendered.foldl (fun acc x => insertSorted x acc) []
+    "{" ++ ",".intercalate (sorted.map (·.2)) ++ "}"
+
+partial def jsonKinds : Json → List String
+  | .null => ["json:null"]
+  | .bool _ => ["json:bool"]
+  | .int v => [if v < 0 then "json:int-negative" else "json:int"]
+  | .float => ["json:float"]
+  | .str cs => [if cs.any (fun c => c.toNat ≥ 0x80) then "json:string-nonascii" else "json:string"]
+  | .arr items => (if items.isEmpty then "json:array-empty" else "json:array") :: items.flatMap jsonKinds
+  | .obj fields => (if fields.isEmpty then "json:object-empty" else "json:object") :: fields.flatMap (fun p => jsonKinds p.2)
+
+/-- which branch of `step` a character takes (the driver's own bookkeeping for the coverage report) -/
+def branchOf (st : BState) (ch : Char) : String :=
+  if st.lex.inLineComment then (if ch == '\n' then "step:comment-ends" else "step:in-comment")
+  else if st.lex.inString then
+    if st.lex.escaped then "step:string-escaped-char"
+    else if ch == '\\' then "step:string-backslash"
+    else if ch == '"' then "step:string-closes"
+    else "step:in-string"
+  else if ch == '/' then (if st.lex.prevSlash then "step:comment-opens" else "step:slash-pending")
+  else if ch == '"' then (if st.lex.prevSlash then "step:string-opens-after-slash" else "step:string-opens")
+  else if isOpener ch then "step:opener"
+  else
+    match closerOf ch, st.stack with
+    | some o, top :: _ => if top == o then "step:closer-pops" else "step:closer-mismatched"
+    | some _, [] => "step:closer-on-empty-stack"
+    | none, _ => (if st.lex.prevSlash then "step:plain-after-slash" else "step:plain")
+
+abbrev Cov := List (String × Nat)
+
+def bump (c : Cov) (k : String) (n : Nat := 1) : Cov :=
+  match c with
+  | [] => [(k, n)]
+  | (k', m) :: rest => if k' == k then (k', m + n) :: rest else (k', m) :: bump rest k n
+
+partial def scanCov (st : BState) (s : List Char) (c : Cov) : Cov :=
+  match s with
+  | [] => c
+  | ch :: rest =>
+    let c := bump c (branchOf st ch)
+    match step Gen.KipLimits.maxKipNestingDepth st ch with
+    | .ok st' => scanCov st' rest c
+    | .error _ => bump c "step:refuses-too-deep"
+
+def handle (cov : Cov) (line : String) : Cov × String :=
   match words line with
   | ["k", hex, alnum] =>
     match decodeInput hex, natList? alnum with
     | some s, some cps =>
       let uni : Char → Bool := fun c => cps.contains c.toNat
-      showBudget (validateBudgetKip s) ++ " " ++ showFamily (classify uni s)
-    | _, _ => "err:bad-request"
+      let b := showBudget (validateBudgetKip s)
+      let f := showFamily (classify uni s)
+      -- branch coverage on inputs of moderate size (every branch is reachable on short inputs)
+      let cov := if s.length ≤ 4000 then scanCov {} s cov else cov
+      (bump (bump cov ("budget:" ++ b)) ("family:" ++ f), b ++ " " ++ f)
+    | _, _ => (cov, "err:bad-request")
   | ["x", hex] =>
     match decodeInput hex with
     | some s =>
       let t := refLex s
-      if t.isEmpty then "-" else String.ofList (t.map (fun p => showCls p.2))
-    | none => "err:bad-request"
+      (bump cov "reflex", if t.isEmpty then "-" else String.ofList (t.map (fun p => showCls p.2)))
+    | none => (cov, "err:bad-request")
   | ["w", h1, h2, hex, alnum] =>
     match decodeInput h1, decodeInput h2, decodeInput hex, natList? alnum with
     | some w1, some w2, some s, some cps =>
       let uni : Char → Bool := fun c => cps.contains c.toNat
-      if matchWords uni [w1, w2] s then "yes" else "no"
-    | _, _, _, _ => "err:bad-request"
+      let a := if matchWords uni [w1, w2] s then "yes" else "no"
+      (bump cov ("words:" ++ a), a)
+    | _, _, _, _ => (cov, "err:bad-request")
+  | ["j", hex] =>
+    match decodeInput hex with
+    | some s =>
+      match parseJson s with
+      | .ok v => ((jsonKinds v).foldl (fun c k => bump c k) (bump cov "parse_json:ok"), "ok " ++ showJson v)
+      | .tooLong => (bump cov "parse_json:too_long", "too_long")
+      | .tooDeep => (bump cov "parse_json:too_deep", "too_deep")
+      | .syntaxErr => (bump cov "parse_json:err", "err")
+      | .outOfFuel => (bump cov "parse_json:oof", "oof")
+    | none => (cov, "err:bad-request")
+  | ["cov"] => (cov, if cov.isEmpty then "-" else ";".intercalate (cov.map (fun (k, n) => k ++ "=" ++ toString n)))
   | ["wsset"] =>
-    showNats ((List.range 0x110000).filter (fun n => isWhitespace (Char.ofNat n) && (Char.ofNat n).toNat == n))
+    (cov, showNats ((List.range 0x110000).filter (fun n => isWhitespace (Char.ofNat n) && (Char.ofNat n).toNat == n)))
   | ["alnumset"] =>
-    showNats ((List.range 0x80).filter (fun n => isAsciiAlnum (Char.ofNat n)))
+    (cov, showNats ((List.range 0x80).filter (fun n => isAsciiAlnum (Char.ofNat n))))
   | ["limits"] =>
-    toString Gen.KipLimits.maxKipInputLen ++ " " ++ toString Gen.KipLimits.maxKipNestingDepth
-  | _ => "err:bad-request"
+    (cov, toString Gen.KipLimits.maxKipInputLen ++ " " ++ toString Gen.KipLimits.maxKipNestingDepth)
+  | _ => (cov, "err:bad-request")
 
 end AndaVerif.DrvC15
 
 def main : IO Unit :=
-  lineLoop () (fun _ line => ((), AndaVerif.DrvC15.handle line))
+  lineLoop ([] : AndaVerif.DrvC15.Cov) (fun cov line => AndaVerif.DrvC15.handle cov line)
